@@ -1471,7 +1471,15 @@ impl<R: Read> Base64Decoder<R> {
         }
         while self.buffer_size + 3 <= self.buffer.len() {
             let mut input = [0u8; 4];
-            let size = self.read.read(&mut input)?;
+            // reader is allowed to return less data than requested, keep reading
+            // until the whole group is received or end of input is reached
+            let mut size = 0;
+            while size < input.len() {
+                match self.read.read(&mut input[size..])? {
+                    0 => break,
+                    read_size => size += read_size,
+                }
+            }
             if size == 0 {
                 break;
             } else if size != 4 {
